@@ -8,7 +8,7 @@ import pandas as pd
 from . import product as P
 from .core import num
 
-LAYOUTS = ["C", "F", "view", "frame", "mixedframe", "flat", "list", "readonly", "frame_values"]
+LAYOUTS = ["C", "F", "view", "frame", "mixedframe", "flat", "list", "readonly", "frame_values", "frame1", "frame_nocopy"]
 GARBAGE = 987654.0
 
 
@@ -38,6 +38,16 @@ def build(layout, rows):
         base = np.zeros((a.shape[0] * 2, a.shape[1] + 1))
         base[::2, 1:] = a
         obj = base[::2, 1:]
+        return obj, lambda: base.__setitem__(Ellipsis, GARBAGE)
+    if layout == "frame1":        # a single-column frame (its block is both C- and F-contiguous)
+        obj = pd.DataFrame(np.array(a[:, :1]), columns=["c0"])
+
+        def over1():
+            obj.iloc[:, :] = GARBAGE
+        return obj, over1
+    if layout == "frame_nocopy":  # a frame built over the caller's own row-major array without copying; the caller then overwrites the array
+        base = np.ascontiguousarray(a)
+        obj = pd.DataFrame(base, columns=["c%d" % i for i in range(a.shape[1])], copy=False)
         return obj, lambda: base.__setitem__(Ellipsis, GARBAGE)
     if layout == "readonly":      # a read-only window onto memory the caller can still write to (a protected view of a shared buffer)
         base = np.array(a, dtype=float)
